@@ -416,6 +416,10 @@ class Program:
     def func(self, qualname: str) -> FuncInfo:
         f = self.functions.get(qualname)
         if f is None:
+            # moved to another module and re-imported under the old name (`from .vcard import apply_text_match`)
+            kind, obj = self._resolve_abs(qualname)
+            if kind == "func":
+                return obj
             raise AnalysisError("function %s not found" % qualname)
         return f
 
@@ -608,6 +612,42 @@ class Program:
             return None
 
     # --------------------------------------------------------- call resolution
+    def memo_alias(self, owner: ClassInfo, name: str) -> Optional[str]:
+        """``self.<name>`` is a memoising wrapper around a method of the same object, installed by the class's own
+        code and nowhere rebound: ``self.<name> = functools.lru_cache(...)(self.<method>)`` (or ``functools.cache``).
+        Such a call computes what the method computes; returns the method's name."""
+        cache = self.__dict__.setdefault("_memo_alias", {})
+        key = (owner.qualname, name)
+        if key in cache:
+            return cache[key]
+        found = []
+        for c in owner.mro:
+            for m in c.methods.values():
+                for n in walk_local(m.node):
+                    if not isinstance(n, (ast.Assign, ast.AnnAssign)) or n.value is None:
+                        continue
+                    tg = n.targets if isinstance(n, ast.Assign) else [n.target]
+                    if any(dotted(t_) == "self." + name for t_ in tg):
+                        found.append(n.value)
+        res = None
+        if len(found) == 1:
+            v = found[0]
+            inner = None
+            if isinstance(v, ast.Call) and len(v.args) == 1 and not v.keywords:
+                f_ = v.func
+                fd = dotted(f_)
+                if fd in ("functools.cache", "functools.lru_cache", "cache", "lru_cache"):
+                    inner = v.args[0]
+                elif isinstance(f_, ast.Call) and dotted(f_.func) in ("functools.lru_cache", "lru_cache"):
+                    inner = v.args[0]
+            if inner is not None and isinstance(inner, ast.Attribute) and dotted(inner.value) == "self":
+                m_ = self.lookup_method(owner, inner.attr)
+                from .inline import returns_immutable
+                if m_ is not None and returns_immutable(m_.node):
+                    res = inner.attr        # results cannot be modified: the wrapper computes what the method computes
+        cache[key] = res
+        return res
+
     def resolve_call(self, fi: FuncInfo, call: ast.Call, local_types: Optional[dict] = None) -> CallRes:
         fn = call.func
         # asyncio.to_thread(f, ...) / to_thread(f, ...): call edge to f (worker thread)
@@ -677,6 +717,11 @@ class Program:
                     t = self.dispatch_targets(owner, name)
                     if t:
                         return CallRes(t, how="self")
+                    alias = self.memo_alias(owner, name)
+                    if alias is not None:
+                        t = self.dispatch_targets(owner, alias)
+                        if t:
+                            return CallRes(t, how="self")
                     return CallRes(how="self-unknown")
             if rd is not None:
                 kind, obj = self.resolve_dotted(fi.module, rd, fi)
